@@ -554,3 +554,96 @@ Proof.
   destruct (sd_and_dfsd_read_dfsd v st' Hv) as [C D].
   repeat split; try assumption. apply dfsd_reads_sd; assumption.
 Qed.
+
+(* --------------------------------------------------------- record dimensions and dimension scales *)
+(** for an HDF file the NDG carries the variable's own extents, whatever the file-wide record count is *)
+Lemma ndg_dims_own_record_count : forall shape vrecs hrecs,
+  ndg_dims true shape vrecs hrecs = effective_dims shape vrecs.
+Proof. reflexivity. Qed.
+
+Lemma source_tie_record_and_scales :
+  hdf_write_var_recdim =
+    "if (val == NC_UNLIMITED) { if (handle->file_type == HDF_FILE) val = (*var)->numrecs; else val = handle->numrecs; }"%string /\
+  hdf_read_ndgs_scale_start = "scale_offset = rank * sizeof(uint8)"%string /\
+  hdf_read_ndgs_scale_walk =
+    "if ((scalebuf) && (scalebuf[dim])) { vars[current_var]->numrecs = dimsizes[dim]; vars[current_var]->data_offset = scale_offset; scale_offset += dimsizes[dim] * DFKNTsize(scaletypes[dim]); } else { vars[current_var]->data_offset = -1; }"%string /\
+  NC_UNLIMITED = 0.
+Proof. repeat split; reflexivity. Qed.
+
+Definition scale_fits (s : option (list Z)) (n : Z) : Prop :=
+  match s with Some b => Z.of_nat (length b) = n | None => True end.
+
+Lemma forall2_length : forall {A B} (P : A -> B -> Prop) l1 l2, Forall2 P l1 l2 -> length l1 = length l2.
+Proof. induction 1; simpl; auto. Qed.
+
+Lemma sds_flags_length : forall scales, length (sds_flags scales) = length scales.
+Proof. intros. unfold sds_flags. apply map_length. Qed.
+
+Lemma slice_exact : forall pre b tail,
+  slice (pre ++ b ++ tail) (Z.of_nat (length pre)) (Z.of_nat (length b)) = b.
+Proof.
+  intros. unfold slice. rewrite !Nat2Z.id. rewrite skipn_exact by reflexivity. apply firstn_exact. reflexivity.
+Qed.
+
+(** the offset walk of hdf_read_ndgs finds every scale DFSDIputndg stored, for every subset of the dimensions *)
+Lemma scale_walk : forall scales sizes pre tail,
+  Forall2 scale_fits scales sizes ->
+  map (fun on => match fst on with
+                 | Some off => Some (slice (pre ++ concat (present scales) ++ tail) off (snd on))
+                 | None => None
+                 end)
+      (combine (scale_offsets sizes (sds_flags scales) (Z.of_nat (length pre))) sizes) = scales.
+Proof.
+  intros scales sizes pre tail H. revert pre. induction H as [| s n scales sizes Hs HF IH]; intro pre.
+  - reflexivity.
+  - destruct s as [b |]; cbn [sds_flags map present concat scale_offsets].
+    + change (1 =? 0) with false. cbn [combine map fst snd]. f_equal.
+      * f_equal. cbn in Hs. rewrite <- Hs. rewrite <- app_assoc. apply slice_exact.
+      * cbn in Hs. rewrite <- Hs. rewrite <- Nat2Z.inj_add, <- app_length.
+        specialize (IH (pre ++ b)). rewrite <- !app_assoc in IH. rewrite <- app_assoc. exact IH.
+    + change (0 =? 0) with true. cbn [combine map fst snd]. f_equal. apply IH.
+Qed.
+
+Lemma sds_roundtrip_sd : forall scales sizes,
+  Forall2 scale_fits scales sizes -> sd_read_scales sizes (sds_encode scales) = scales.
+Proof.
+  intros scales sizes H. unfold sd_read_scales, sds_encode.
+  assert (L : length sizes = length (sds_flags scales)).
+  { rewrite sds_flags_length. symmetry. eapply forall2_length; eauto. }
+  rewrite L. rewrite firstn_exact by reflexivity.
+  pose proof (scale_walk scales sizes (sds_flags scales) [] H) as W. rewrite app_nil_r in W. exact W.
+Qed.
+
+Lemma seq_scales_ok : forall scales sizes tail,
+  Forall2 scale_fits scales sizes ->
+  seq_scales sizes (sds_flags scales) (concat (present scales) ++ tail) = scales.
+Proof.
+  intros scales sizes tail H. induction H as [| s n scales sizes Hs HF IH].
+  - reflexivity.
+  - destruct s as [b |]; cbn [sds_flags map present concat seq_scales].
+    + change (1 =? 0) with false. cbn in Hs. rewrite <- Hs, Nat2Z.id. rewrite <- app_assoc.
+      rewrite firstn_exact, skipn_exact by reflexivity. apply (f_equal (cons (Some b))). exact IH.
+    + change (0 =? 0) with true. apply (f_equal (cons None)). exact IH.
+Qed.
+
+Lemma sds_roundtrip_dfsd : forall scales sizes,
+  Forall2 scale_fits scales sizes -> dfsd_read_scales sizes (sds_encode scales) = scales.
+Proof.
+  intros scales sizes H. unfold dfsd_read_scales, sds_encode.
+  assert (L : length sizes = length (sds_flags scales)).
+  { rewrite sds_flags_length. symmetry. eapply forall2_length; eauto. }
+  rewrite L. rewrite firstn_exact, skipn_exact by reflexivity.
+  pose proof (seq_scales_ok scales sizes [] H) as W. rewrite app_nil_r in W. exact W.
+Qed.
+
+(** record variables: the NDG reconstruction shows the variable's own record count *)
+Lemma ndg_view_record_variable : forall shape vrecs hrecs nt dref ref ndgref st',
+  let v := mkVar (ndg_dims true shape vrecs hrecs) nt dref ref ndgref in
+  var_ok v ->
+  ndg_view (sd_write_var v ++ st') (sd_ndg_members v) =
+  Some (zlen shape, effective_dims shape vrecs, shown_nt nt, dref).
+Proof.
+  intros shape vrecs hrecs nt dref ref ndgref st' v Hv.
+  destruct (ndg_view_eq_vgroup_view_lemma v st' Hv) as [A _]. rewrite A. unfold the_view, v. cbn [v_dims v_nt v_data_ref].
+  rewrite ndg_dims_own_record_count. unfold zlen, effective_dims. rewrite map_length. reflexivity.
+Qed.
